@@ -157,6 +157,17 @@ impl FakeUsb {
     pub fn malformed_cmds(&self) -> usize {
         self.0.lock().unwrap().malformed_cmds
     }
+    /// Overwrite bytes of the device image from outside (device-side change between sessions).
+    pub fn poke(&self, addr: u64, data: &[u8]) -> bool {
+        let mut g = self.0.lock().unwrap();
+        match g.find(addr, data.len()) {
+            Some((i, o)) => {
+                g.regions[i].data[o..o + data.len()].copy_from_slice(data);
+                true
+            }
+            None => false,
+        }
+    }
     /// Bytes of the device image (None when not fully mapped).
     pub fn peek(&self, addr: u64, len: usize) -> Option<Vec<u8>> {
         let g = self.0.lock().unwrap();
